@@ -48,6 +48,8 @@ Failed(e) ==
   \cup (IF e.crash.arch \in {"old", "absent", "new"} THEN {} ELSE {"archive-torn"})
   \cup (IF e.crash.arch = "new" /\ ~(snapA = fin.a /\ snapB = fin.b) THEN {"record-ahead-of-data"} ELSE {})
   \cup (IF e.rec.ok /\ rec.a = fin.a /\ rec.b = fin.b THEN {} ELSE {"recovery-differs"})
+  \* ... and once the re-run has completed on the uninterrupted run's trees, the recorded state is that tree, readable
+  \cup (IF e.rec.ok /\ rec.a = fin.a /\ rec.b = fin.b /\ e.rec.arch # "new" THEN {"recovered-archive-not-the-final-state"} ELSE {})
   \cup (IF NoLossEdge(a, b, la, rec) THEN {} ELSE {"version-lost"})
 
 Conform(e) ==
